@@ -345,3 +345,40 @@ class ClientView:
             mf = _FLAGS.search(m.group(3))
             if mf:
                 self.flags[n - 1] = frozenset(mf.group(1).split())
+
+
+# ---------------------------------------------------------------- the maildir backend
+
+class MaildirWorld(World):
+    """the real MaildirBackend on a temporary directory (commands run on its thread pool)"""
+
+    def __init__(self, layout='++', base=None, **kw):
+        super().__init__(**kw)
+        self.layout = layout
+        self.base = base
+        self.users = {}
+
+    async def start(self, users=(('alice', 'apass'), ('bob', 'bpass')), **overrides):
+        import tempfile
+        from pymap.backend.maildir import MaildirBackend, Identity
+        from pymap.user import Passwords
+        if self.base is None:
+            self.base = tempfile.mkdtemp(prefix='pymap-md-')
+            self.own_base = True
+        args = FakeArgs(base_dir=self.base, layout=self.layout, colon=None, concurrency=2)
+        self.backend, self.config = await MaildirBackend.init(args)
+        for user, pw in users:
+            hashed = await Passwords(self.config).hash_password(pw)
+            ident = Identity(self.config, self.backend.login.tokens, user, None, {'admin'})
+            try:
+                await ident.set(UserMetadata(self.config, user, password=hashed, params={'mailbox_path': user}))
+            except Exception:   # noqa  (restart on an existing store: the user is already there)
+                pass
+            self.users[user] = pw
+        self.server = IMAPServer(self.backend.login, self.config)
+        return self
+
+    def cleanup(self):
+        import shutil
+        if getattr(self, 'own_base', False):
+            shutil.rmtree(self.base, ignore_errors=True)
